@@ -540,7 +540,7 @@ func TestCheck(t *testing.T) {
 	// received bundles with drawn block mixes (unordered block numbers, several unknown blocks, arbitrary CRC types)
 	for _, a := range algos {
 		a := a
-		r.Group("mixed-"+a, r.Pick(120, 1500), func(i int, rng *report.Rand) {
+		r.Group("mixed-"+a, r.Pick(120, 500), func(i int, rng *report.Rand) {
 			mixed(r, a, i, rng)
 		})
 	}
